@@ -56,6 +56,9 @@ var orderShapes = []struct {
 	{"recursive-slice", &spec.Path{Root: '$', Steps: []spec.Step{{Kind: spec.KRec}, {Kind: spec.KUnion, Subs: []spec.Sub{{Kind: spec.SSlice, Start: nil, End: nil, Step: nil}}}}}},
 	{"nested-recursive-index", &spec.Path{Root: '$', Steps: []spec.Step{{Kind: spec.KName, Key: "wrap"}, {Kind: spec.KRec}, {Kind: spec.KUnion, Subs: []spec.Sub{{Kind: spec.SIndex, N: 1}, {Kind: spec.SIndex, N: 0}}}}}},
 	{"multi-with-wildcard", &spec.Path{Root: '$', Steps: []spec.Step{{Kind: spec.KMulti, Items: []spec.MItem{{Wild: true}, {Key: "?"}}}, {Kind: spec.KName, Key: "v"}}}},
+	// names only, in the order WRITTEN (not the key order), more names than the object may have members, absent names in between
+	{"multi-names-written-order", &spec.Path{Root: '$', Steps: []spec.Step{{Kind: spec.KMulti, Items: []spec.MItem{{Key: "?"}, {Key: "?"}}}}}},
+	{"recursive-multi-names-written-order", &spec.Path{Root: '$', Steps: []spec.Step{{Kind: spec.KRec}, {Kind: spec.KMulti, Items: []spec.MItem{{Key: "?"}, {Key: "?"}}}}}},
 	{"filter-compare", &spec.Path{Root: '$', Steps: []spec.Step{{Kind: spec.KFilter, Q: &spec.Query{Op: spec.QCmp, Cmp: "!=", LO: spec.Operand{P: &spec.Path{Root: '@', Steps: []spec.Step{{Kind: spec.KName, Key: "v"}}}}, RO: spec.Operand{IsLit: true, Lit: "zz", LitText: "'zz'"}}}, {Kind: spec.KWild}, {Kind: spec.KWild}}}},
 }
 
@@ -73,7 +76,7 @@ func init() {
 	harness.Register(&harness.Check{
 		ID:    "C07",
 		Level: "exploration",
-		Rule: "case = one key set (2..12 keys from a pool that sorts differently by byte, rune, length and case; one in six cases 13..260 keys incl. generated ones with shared prefixes) x 11 path shapes (wildcard, filter, recursive descent followed by name / wildcard / filter / index / slice, also below an object nested directly in an object, multi-name with *); " +
+		Rule: "case = one key set (2..12 keys from a pool that sorts differently by byte, rune, length and case; one in six cases 13..260 keys incl. generated ones with shared prefixes) x 13 path shapes (wildcard, filter, multi-name lists of names in the order written with absent and repeated names - alone and after `..` -, recursive descent followed by name / wildcard / filter / index / slice, also below an object nested directly in an object, multi-name with *); " +
 			"the object is built 3 times with different insertion orders, each shape evaluated repeatedly on each build (20 / 60 repetitions) interleaved with evaluations on " +
 			"bigger and smaller maps that recycle the pooled key buffers; judged: all repetitions identical and equal to the order computed with sort.Strings / pre-order / " +
 			"written order (SPEC), and for the plain wildcard shape to the directly sorted key list; hooks: adversarial key scrambling before the library's sort, key-buffer poison (half of the cases; a quarter runs without any hook: poison also hides a library that wrongly re-uses a recycled buffer's content); " +
@@ -102,7 +105,7 @@ func init() {
 					runC07(c, reps)
 				},
 				Finish:   reportHooks,
-				Required: []string{"keys:2", "keys:12", "keys:large", "shape:wildcard", "shape:recursive-name", "shape:filter", "shape:multi-with-wildcard", "shape:recursive-index", "shape:nested-recursive-index"},
+				Required: []string{"keys:2", "keys:12", "keys:large", "shape:wildcard", "shape:recursive-name", "shape:filter", "shape:multi-with-wildcard", "shape:recursive-index", "shape:nested-recursive-index", "shape:multi-names-written-order", "shape:recursive-multi-names-written-order"},
 			}
 		},
 	})
@@ -179,6 +182,21 @@ func runC07(c *harness.Ctx, reps int) {
 		cp := *p
 		cp.Steps = append([]spec.Step{}, p.Steps...)
 		cp.Steps[0] = spec.Step{Kind: spec.KMulti, Items: []spec.MItem{{Wild: true}, {Key: keys[r.Intn(n)]}}}
+		p = &cp
+	}
+	if strings.HasSuffix(shape.name, "multi-names-written-order") {
+		// a shuffled selection of the object's own keys (up to 9) with absent names and a repetition mixed in
+		var items []spec.MItem
+		for _, i := range r.Perm(n) {
+			if len(items) < 9 {
+				items = append(items, spec.MItem{Key: keys[i]})
+			}
+		}
+		items = append(items, spec.MItem{Key: "absent-1"}, spec.MItem{Key: keys[r.Intn(n)]}, spec.MItem{Key: "absent-2"}, spec.MItem{Key: "v"}, spec.MItem{Key: "n"})
+		r.Shuffle(len(items), func(i, j int) { items[i], items[j] = items[j], items[i] })
+		cp := *p
+		cp.Steps = append([]spec.Step{}, p.Steps...)
+		cp.Steps[len(cp.Steps)-1] = spec.Step{Kind: spec.KMulti, Items: items}
 		p = &cp
 	}
 	text := p.Text()
